@@ -161,6 +161,12 @@ func ValidateCounterpartyID(id string, protocol ProtocolID) error {
 		)
 	}
 
+	// The counterparty ID is used as a non terminal component of store keys,
+	// which cannot contain the null byte used as string delimiter.
+	if strings.IndexByte(id, 0) != -1 {
+		return errors.New("counterparty ID cannot contain the null character")
+	}
+
 	var valid bool
 	switch protocol {
 	case PROTOCOL_IBC:
